@@ -138,7 +138,8 @@ Definition cSep2 := @FSep2 Q.
 (* Functional.__mul__(0): ConstantFunctional(f(0)), evaluated eagerly at construction *)
 Definition cMul0 (w : list Q) (f : fx) : fx :=
   match valueQ f w (map (fun _ => 0) w) with Ok (EFin v) => FConst v | _ => FConst 0 end.
-(* GroupL1Norm(S, 2) / IndicatorGroupL1UnitBall(S, 2) on the power space S = X^d, X with m points *)
-Definition cGroup (d m : nat) (b : bool) : fx := FPair b (group_pair Qsqrt d m).
+(* GroupL1Norm(S, 2) / IndicatorGroupL1UnitBall(S, 2) on the power space S = X^d with component weights cw
+   (ProductSpace(X, d, weighting=cw); [1; ..; 1] when unweighted), X with m points *)
+Definition cGroup (cw : list Q) (m : nat) (b : bool) : fx := FPair b (group_pair Qsqrt cw m).
 Definition cBreg (w : list Q) (f : fx) (p g : list Q) : fx :=
   match @bregman Q _ Qsqrt 0 f w p g with Ok e => e | Err _ => FConst 0 end.
